@@ -1,11 +1,11 @@
 SPECIFICATION Spec
 CONSTANTS
-  Kinds <- KindsFew
+  Kinds <- KindsTwo
   CleanupIds = {"c1"}
-  DetailNames <- NamesAll
-  Mismatches = {"m0", "m1", "m2"}
-  Attrs = {"a_exist", "a_missing", "a_none"}
-  Fixtures = {"f_ok", "f_tb", "f_two", "f_bad", "f_cr"}
+  DetailNames <- NamesMid
+  Mismatches = {"m2"}
+  Attrs = {"a_none"}
+  Fixtures = {"f_two", "f_bad"}
   MaxFaults = 1
   MaxSteps = 3
   MaxTotalSteps = 3
